@@ -1652,3 +1652,36 @@ Proof.
   rewrite (region_write_refines_lemma d e data xdim ydim r f H1 H2 H3).
   apply region_read_refines_lemma; auto. unfold spec_write_px. rewrite map_length, seq_length. reflexivity.
 Qed.
+
+(* ------------------------------------------------------------------------------------------ *)
+(** * Number type across GRend / reopen (DFTAG_NT record of GRIupdatemeta) *)
+
+Lemma nt_persists_sweep :
+  forallb (fun nt => let '(nt1, s1) := reopen_nt nt DFNTF_HDFDEFAULT in
+                     let '(nt2, s2) := reopen_nt nt1 s1 in
+                     Z.eqb nt1 nt && Z.eqb nt2 nt &&
+                     match nt_size nt with
+                     | Some cs => (1 <=? cs) && Bool.eqb (nt_swapped nt1 cs) (nt_swapped nt cs)
+                     | None => false
+                     end) gr_number_types = true.
+Proof. vm_compute. reflexivity. Qed.
+
+(** For each of the 20 number types of the domain (10 standard + 10 little-endian): the type is known to
+    DFKNTsize, an image created with it (file subclass DFNTF_HDFDEFAULT) comes back from GRend / reopen with
+    the same number type -- also after a second save -- and the same byte order of its components. *)
+Lemma nt_persists_lemma : forall nt,
+    In nt gr_number_types ->
+    (exists cs, nt_size nt = Some cs /\ 1 <= cs /\
+                nt_swapped (fst (reopen_nt nt DFNTF_HDFDEFAULT)) cs = nt_swapped nt cs) /\
+    fst (reopen_nt nt DFNTF_HDFDEFAULT) = nt /\
+    fst (reopen_nt (fst (reopen_nt nt DFNTF_HDFDEFAULT)) (snd (reopen_nt nt DFNTF_HDFDEFAULT))) = nt.
+Proof.
+  intros nt Hin. pose proof nt_persists_sweep as F. rewrite forallb_forall in F. specialize (F nt Hin).
+  destruct (reopen_nt nt DFNTF_HDFDEFAULT) as [nt1 s1] eqn:E1. destruct (reopen_nt nt1 s1) as [nt2 s2] eqn:E2.
+  simpl. rewrite E2. simpl.
+  apply andb_prop in F. destruct F as [F F3]. apply andb_prop in F. destruct F as [F1 F2].
+  apply Z.eqb_eq in F1. apply Z.eqb_eq in F2.
+  destruct (nt_size nt) as [cs|]; [|discriminate].
+  apply andb_prop in F3. destruct F3 as [F3 F4]. apply Nat.leb_le in F3. apply Bool.eqb_prop in F4.
+  repeat split; auto. exists cs. repeat split; auto.
+Qed.
